@@ -9,7 +9,11 @@ def run(tier, seed):
     vlib.build_harness()
     r, rep = netcommon.mc_and_replay(v, wd, "c03", 1, tier == "thorough", workers=15)
     vlib.require(rep["evaluations"] > 100000 and rep["nontrivial"] > 500, "C03 replay too small")
+    # the text side: option spellings -> rule AST (Options.tla)
+    rep_o = netcommon.option_spellings(v, wd, 2 if tier == "quick" else 3)
+    vlib.require(rep_o["nontrivial"] > 300, "option-spelling replay too small")
     v.assumptions += [
+        "tag combined with redirect / removeparam is documented as unsupported and excluded from the option-spelling universe",
         "third-party is computed in the spec with single-label public suffixes (com); C12 checks the real resolver",
         "a $domain= rule against a request without source hostname is left unspecified (the statement is silent)",
         "match-case needs a full-regex rule, which is outside the spec's pattern language: not covered",
